@@ -203,7 +203,7 @@ def r2_ref_minting(ctx):
     # worker id plumbing
     wn = F.body("quiver_environment::worker::Worker::new")
     flw = Flow(wn)
-    wid = [l["i"] for l in wn.locals if l.get("name") == "worker_id" and l["i"] <= wn.mir["argc"]]
+    wid = [l["i"] for l in wn.params() if l["ty"] == "u16"]
     ok = False
     for bi, t in wn.calls_to("Executor::new"):
         c = flw.canon_op(t["args"][2]) if len(t["args"]) > 2 else None
